@@ -186,7 +186,7 @@ func c02Guard(rc *RuleCtx) {
 					// `if err != nil { return err }`: the returned value is known to be non-nil on this branch
 					known := false
 					for _, fa := range factsAt(r.Block()) {
-						if x, isNil, ok := nilTest(fa); ok && !isNil && (x == v || resolve1(x) == v || strip(resolve1(x)) == strip(v)) {
+						if x, isNil, ok := nilTest(fa); ok && !isNil && (x == v || resolve1(x) == v || strip(resolve1(x)) == strip(v) || strip(resolve1(x)) == strip(resolve1(v))) {
 							known = true
 						}
 					}
